@@ -92,6 +92,10 @@ def gen_inputs(ctx, rnd):
                'int a = "xy"; /* c */ b \\\n c\n', '"" "a" "" "bc"', 'L"ab" "c"', 'a.b->c <<= 2 ... 1.5e3f 0x1FuL 07 \'\\n\'', 'a\x80\xffb', '\t\x0b\x0c a']
     # many distinct identifiers (rename-toks index table), function-like macros (define)
     special += [' '.join(f'v{i}' for i in range(k)) + '\n' for k in (15, 16, 17, 18, 33, 70)]
+    # every one-letter name is taken (the fresh names of rename-toks wrap from "z" to "aa"), and names that are already fresh names
+    import string
+    special += [' '.join(string.ascii_lowercase) + ' k1 k2 k3\n', ' '.join(string.ascii_lowercase) + ' aa ab ba\n',
+                ' '.join(reversed(string.ascii_lowercase)) + ';x1;', ' '.join(string.ascii_lowercase[:25]) + ' q9\n']
     special += ['int b, a, foo; foo = a;', 'b a c', 'c b a zz', 'b a', 'z a', 'ab aa a b zz',
                 '#define A(x) x\nA B\n#define B 1\nB\n', '#define F( y\nF F\n#define G 2\nG G\n', 'Q\n#define Q(\n#define R r\nR\n']
     rn = []
